@@ -67,6 +67,9 @@ def check_cost(rep, run: Run, D: Blocks, rule="BN-COST", cross=cross_spec, diag=
             if v.off == sym.INF:
                 rep.discharged(rule, fi, s["node"], "off-diagonal entries of the diagonal-cost block are +inf",
                                nontrivial=False)
+            elif v.off[0] == "opq" and v.off[1] == "earlier-contents":
+                rep.unmodelled(rule, fi, s["node"], "the entries around this diagonal store keep what an earlier, possibly "
+                                                    "overlapping store wrote there (positions are decided by the tiling rule)")
             else:
                 rep.refuted(rule, fi, s["node"], f"off-diagonal entries of the diagonal-cost block are "
                                                  f"{sym.show(v.off)}, not +inf: a point may be matched to another "
